@@ -421,16 +421,28 @@ def check(src, rep):
                 best = fd
         return best
     allowed = {id(c.methods["message_received"].node) for c in (PP, MP)}
+    # one pass over the program: call sites and references by name
+    sites_by, refs_by = {}, {}
+    for m in src.text:
+        if m.startswith("@"):
+            continue
+        for n in ast.walk(src.tree(m)):
+            if isinstance(n, ast.Call):
+                nm_ = n.func.attr if isinstance(n.func, ast.Attribute) else n.func.id if isinstance(n.func, ast.Name) else None
+                if nm_:
+                    sites_by.setdefault(nm_, []).append((m, n.lineno))
+            if isinstance(n, ast.Attribute):
+                refs_by.setdefault(n.attr, []).append(n)
+            elif isinstance(n, ast.Name):
+                refs_by.setdefault(n.id, []).append(n)
     changed = True
     while changed:
         changed = False
         for fm, fd in fdefs:
             if id(fd) in allowed or fd.name.startswith("__"):
                 continue
-            sites = [(m, n.lineno) for m in src.text if not m.startswith("@") for n in ast.walk(src.tree(m))
-                     if isinstance(n, ast.Call) and ((isinstance(n.func, ast.Attribute) and n.func.attr == fd.name) or (isinstance(n.func, ast.Name) and n.func.id == fd.name))]
-            refs = [n for m in src.text if not m.startswith("@") for n in ast.walk(src.tree(m))
-                    if (isinstance(n, ast.Attribute) and n.attr == fd.name) or (isinstance(n, ast.Name) and n.id == fd.name)]
+            sites = sites_by.get(fd.name, [])
+            refs = refs_by.get(fd.name, [])
             if sites and len(refs) == len(sites) and all((e := enclosing(m, ln)) is not None and id(e) in allowed for m, ln in sites):
                 allowed.add(id(fd))
                 changed = True
